@@ -56,7 +56,9 @@ def strategy(draw):
         "perm": draw(st.sampled_from([[], ["target"], ["anti"], ["ref"], ["target", "anti", "ref"], ["target", "ref"]])),
         "scale": draw(st.sampled_from([0.0, 1.0, -3.0, 2.5])), "noise": draw(st.sampled_from([0.0, 0.1, 0.4])),
         "negative": draw(st.sampled_from([None, None, None, None, None, "missing", "missing-end", "dup-sample", "dup-ref"])),
-        "extra_ref": draw(st.integers(0, 2)) > 0,
+        "extra_ref": draw(st.integers(0, 2)) > 0, "ref_targets_only": draw(st.booleans()),
+        # where on the chromosome the bins sit: near the start, at human chromosome scale, beyond 2^31
+        "offset": draw(st.sampled_from([0, 0, 0, 240000000, 3000000000])),
     }
 
 
@@ -67,7 +69,7 @@ def build(case):
     uni = []
     uid = 0
     for c in case["chroms"]:
-        pos = int(rng.integers(1000, 50000))
+        pos = int(rng.integers(1000, 50000)) + int(case.get("offset", 0))
         for _ in range(case["clusters"]):
             for _k in range(int(rng.integers(1, case["max_in_cluster"] + 1))):
                 size = int(rng.choice([60, 120, 200, 300, 500, 900])) + uid % 37
@@ -131,12 +133,17 @@ def build(case):
     for c in (case["chroms"][:2] if case.get("extra_ref", True) else []):
         ref.append({"chromosome": c, "start": 10, "end": 400, "gene": "EXTRA", "cls": "t", "log2": 0.25, "spread": 0.05,
                     "depth": 100.0, "gc": 0.5 + len(ref) * 1e-5, "rmask": 0.5 + len(ref) * 1e-5})
+    if case.get("ref_targets_only") and case["anti"] == "empty":
+        # a target-only reference (WGS / amplicon style): no off-target bins at all
+        ref = [r for r in ref if r["cls"] == "t"]
     ref.sort(key=lambda r: (case["chroms"].index(r["chromosome"]), r["start"]))
     tgt, anti = [], []
     for i, b in enumerate(uni):
         if rng.random() < case["drop_frac"]:
             continue
-        rr = next(r for r in ref if (r["chromosome"], r["start"]) == (b["chromosome"], b["start"]))
+        rr = next((r for r in ref if (r["chromosome"], r["start"]) == (b["chromosome"], b["start"])), None)
+        if rr is None:
+            continue  # an off-target bin of the universe that a target-only reference does not hold
         null = rng.random() < case["null_frac"]
         base = (rr["log2"] if abs(rr["log2"]) < 4.9 else 0.0) + float(rng.normal(0, case["noise"])) + case["scale"] \
             + (0.8 if b["chromosome"] == case["chroms"][0] else 0.0)
